@@ -172,12 +172,35 @@ def api_expressions(tok):
     return out, untemplated
 
 
-def api_jobs(r, tier):
+def api_subset(ctx, only, label):
+    """the part of the numba API sweep whose expressions satisfy `only` (used by C09 / C10 for the boost / rotation spellings inside
+    compiled code): -> (disagreements, failing_inputs, n_expressions)"""
+    import multiprocessing as mp
+    r = C.rng(ctx.seed, "numba-" + label)
+    jobs, n_expr, _ = api_jobs(r, ctx.tier, only=only, constructors=False, types=[("m", 3), ("m", 4), (r.choice("gm"), 4)])
+    dis, fails = [], []
+    with mp.get_context("spawn").Pool(min(8, os.cpu_count() or 4)) as pool:
+        res = pool.map(probe_worker, jobs, chunksize=1)
+        single = []
+        for src, toks, interp, comp in res:
+            if not same(interp, comp):
+                body = src.split("return (", 1)[1].rsplit(",)", 1)[0]
+                head = src.split("return (", 1)[0]
+                single += [(head + f"return {e}\n", toks) for e in split_top(body)]
+        for src, toks, interp, comp in (pool.map(probe_worker, single, chunksize=1) if single else []):
+            if not same(interp, comp):
+                dis.append(f"numba-compiled {src.split('return', 1)[1].strip()} on {toks[:2]}: interpreter {str(interp)[:120]}, compiled {str(comp)[:120]}")
+                fails.append({"key": "numba:" + src.split("return", 1)[1].strip()[:40], "what": dis[-1][:300], "code": probe_replay(src, toks)})
+    return dis, fails, n_expr
+
+
+def api_jobs(r, tier, only=None, constructors=True, types=None):
     """compile-and-run jobs covering the whole numba-supported API of a few operand types (one per dimension and flavor in the
     thorough tier, one per dimension in the quick tier); expressions the interpreter itself rejects are left out"""
     jobs, n_expr, untemplated = [], 0, set()
     # momentum types carry every generic name plus the momentum spellings: quick = all three momentum types + one generic type
-    types = [(fl, d) for d in (2, 3, 4) for fl in "gm"] if tier == "thorough" else [("m", d) for d in (2, 3, 4)] + [("g", r.choice((2, 3, 4)))]
+    if types is None:
+        types = [(fl, d) for d in (2, 3, 4) for fl in "gm"] if tier == "thorough" else [("m", d) for d in (2, 3, 4)] + [("g", r.choice((2, 3, 4)))]
     for fl, d in types:
         me = symobj.vtoken(fl, r.choice(C.SIGS[d]), 1)
         toks = [me, symobj.vtoken(fl, r.choice(C.SIGS[d]), 2), symobj.vtoken(fl, r.choice(C.SIG3), 3), "B:" + symobj.vtoken(fl, r.choice(C.SIG3), 2), "T:4", "T:9", "T:16"]
@@ -193,7 +216,9 @@ def api_jobs(r, tier):
                 pass
         import numpy
         import vector
-        for e in OPERATOR_EXPRS:            # operators and numpy functions on vectors inside compiled code
+        if only is not None:
+            ok = [e for e in ok if only(e)]
+        for e in (OPERATOR_EXPRS if only is None else []):            # operators and numpy functions on vectors inside compiled code
             try:
                 eval(e, {"numpy": numpy, "vector": vector}, env)
                 ok.append(e)
@@ -205,8 +230,8 @@ def api_jobs(r, tier):
             chunk = ok[i:i + size]
             jobs.append((f"import numpy, vector\ndef f({API_ARGS}):\n    return ({', '.join(chunk)},)\n", toks))
     # constructors inside compiled code
-    ce = constructor_exprs()
-    if tier != "thorough":
+    ce = constructor_exprs() if constructors else []
+    if tier != "thorough" and ce:
         ce = r.sample(ce, 48)
     n_expr += len(ce)
     for i in range(0, len(ce), 12):
